@@ -2,13 +2,18 @@ package node
 
 import (
 	"net"
+	"sync"
 
 	"ergo.services/ergo/gen"
 )
 
 type acceptor struct {
-	l                net.Listener
-	bs               int
+	l  net.Listener
+	bs int
+	// mu guards the options that can be changed at run time
+	// (cookie, flags, max_message_size): the accept loop reads
+	// them for every incoming connection
+	mu               sync.RWMutex
 	cookie           string
 	port             uint16
 	cert_manager     gen.CertManager
@@ -27,14 +32,20 @@ type acceptor struct {
 // gen.Acceptor interface implementation
 
 func (a *acceptor) Cookie() string {
+	a.mu.RLock()
+	defer a.mu.RUnlock()
 	return a.cookie
 }
 
 func (a *acceptor) SetCookie(cookie string) {
+	a.mu.Lock()
 	a.cookie = cookie
+	a.mu.Unlock()
 }
 
 func (a *acceptor) NetworkFlags() gen.NetworkFlags {
+	a.mu.RLock()
+	defer a.mu.RUnlock()
 	return a.flags
 }
 
@@ -42,10 +53,14 @@ func (a *acceptor) SetNetworkFlags(flags gen.NetworkFlags) {
 	if flags.Enable == false {
 		flags = gen.DefaultNetworkFlags
 	}
+	a.mu.Lock()
 	a.flags = flags
+	a.mu.Unlock()
 }
 
 func (a *acceptor) MaxMessageSize() int {
+	a.mu.RLock()
+	defer a.mu.RUnlock()
 	return a.max_message_size
 }
 
@@ -53,15 +68,29 @@ func (a *acceptor) SetMaxMessageSize(size int) {
 	if size < 0 {
 		size = 0
 	}
+	a.mu.Lock()
 	a.max_message_size = size
+	a.mu.Unlock()
+}
 
+// handshakeOptions returns the options for the handshake with the next
+// incoming connection (what SetCookie, SetNetworkFlags, SetMaxMessageSize set last)
+func (a *acceptor) handshakeOptions() gen.HandshakeOptions {
+	a.mu.RLock()
+	defer a.mu.RUnlock()
+	return gen.HandshakeOptions{
+		Cookie:         a.cookie,
+		Flags:          a.flags,
+		MaxMessageSize: a.max_message_size,
+		CertManager:    a.cert_manager,
+	}
 }
 
 func (a *acceptor) Info() gen.AcceptorInfo {
 	info := gen.AcceptorInfo{
 		Interface:        a.l.Addr().String(),
-		MaxMessageSize:   a.max_message_size,
-		Flags:            a.flags,
+		MaxMessageSize:   a.MaxMessageSize(),
+		Flags:            a.NetworkFlags(),
 		TLS:              a.cert_manager != nil,
 		CustomRegistrar:  a.registrar_custom,
 		HandshakeVersion: a.handshake.Version(),
